@@ -279,7 +279,53 @@ func allConfigs() []deploy.Config {
 
 type storeFault struct {
 	Cfg   deploy.Config `json:"config"`
-	Fault string        `json:"fault"` // insert-fails | delete-fails | update-fails | none
+	Fault string        `json:"fault"`           // insert-fails | delete-fails | update-fails | none
+	Phase string        `json:"phase,omitempty"` // "" = while the owner handles TO2.Done; "di" = while the manufacturer stores the DI voucher
+}
+
+// evalStoreFaultDI: the manufacturer's store is the real SQLite backend and refuses to insert
+// the voucher at the end of DI: DI must fail, the device must not keep a credential for a
+// voucher nobody holds, nothing is stored, and a retry without the fault succeeds with
+// credential and stored voucher in agreement.
+func evalStoreFaultDI(d storeFault) ev.Result {
+	ctx, cancel := context.WithTimeout(context.Background(), 90*time.Second)
+	defer cancel()
+	scratch := deploy.ScratchDir()
+	defer os.RemoveAll(scratch)
+	mfg, db, err := deploy.NewSQLiteService("mfg", filepath.Join(scratch, "mfg.db"), deploy.KeyMfg, true)
+	if err != nil {
+		return ev.Failf("setup", "sqlite: %v", err)
+	}
+	defer db.Close()
+	tag := fmt.Sprintf("%s/%s DI fault=%s", d.Cfg.Key, d.Cfg.Enc, d.Fault)
+	if _, err := db.DB().ExecContext(ctx, "CREATE TRIGGER verif_fault BEFORE INSERT ON vouchers BEGIN SELECT RAISE(FAIL, 'disk full (injected)'); END"); err != nil {
+		return ev.Failf("setup", "%s: installing the fault: %v", tag, err)
+	}
+	dev := deploy.NewDevice(d.Cfg, deploy.KeyDevice)
+	derr := dev.DI(ctx, deploy.NewLink(mfg))
+	var n int
+	if err := db.DB().QueryRowContext(ctx, "SELECT COUNT(*) FROM vouchers").Scan(&n); err != nil {
+		return ev.Failf("setup", "%s: counting vouchers: %v", tag, err)
+	}
+	if derr == nil {
+		return ev.Failf("di-succeeded-despite-storage-fault", "%s: DI returned a credential although the manufacturer could not store the voucher (%d vouchers stored)", tag, n)
+	}
+	if n != 0 {
+		return ev.Failf("voucher-stored-despite-storage-fault", "%s: %d vouchers stored although the insert failed", tag, n)
+	}
+	if _, err := db.DB().ExecContext(ctx, "DROP TRIGGER IF EXISTS verif_fault"); err != nil {
+		return ev.Failf("setup", "%s: removing the fault: %v", tag, err)
+	}
+	dev = deploy.NewDevice(d.Cfg, deploy.KeyDevice)
+	if err := dev.DI(ctx, deploy.NewLink(mfg)); err != nil {
+		return ev.Failf("retry-failed-after-storage-fault", "%s: DI after the fault was removed: %v", tag, err)
+	}
+	if why := deploy.Agreement(ctx, mfg.State, nil, dev); why != "" {
+		return ev.Failf("agreement-after-di", "%s: %s", tag, why)
+	}
+	res := ev.OK("storefault/di-insert-fails")
+	res.ID = tag
+	return res
 }
 
 // evalStoreFault: the owner's voucher store is the real SQLite backend; while the owner
@@ -289,6 +335,9 @@ type storeFault struct {
 // exactly the voucher that matches the device's current credential; once the fault is gone a
 // retry succeeds and credential and store agree.
 func evalStoreFault(d storeFault) ev.Result {
+	if d.Phase == "di" {
+		return evalStoreFaultDI(d)
+	}
 	ctx, cancel := context.WithTimeout(context.Background(), 90*time.Second)
 	defer cancel()
 	scratch := deploy.ScratchDir()
@@ -424,7 +473,7 @@ func TestC03(t *testing.T) {
 		}
 	}, evalHist)
 
-	r.SetRule("storage-faults", "the owner's store is the real SQLite backend; while the owner handles TO2.Done one kind of statement on the vouchers table fails (trigger raising an error: INSERT, DELETE or UPDATE), for 4 configurations, plus a fault-free control. Oracle: TO2 fails without a credential, the device credential is unchanged, the owner still holds byte-for-byte the voucher of the device's current credential, and after the fault is removed a retry succeeds with credential and store in agreement. Exhaustive over faults × configurations.")
+	r.SetRule("storage-faults", "the owner's store is the real SQLite backend; while the owner handles TO2.Done one kind of statement on the vouchers table fails (trigger raising an error: INSERT, DELETE or UPDATE), for 4 configurations, plus a fault-free control, and the same INSERT failure while the manufacturer stores the voucher at the end of DI (DI must fail, nothing stored, retry succeeds). Oracle: TO2 fails without a credential, the device credential is unchanged, the owner still holds byte-for-byte the voucher of the device's current credential, and after the fault is removed a retry succeeds with credential and store in agreement. Exhaustive over faults × configurations.")
 	ev.Enum(r, "storage-faults", true, func(yield func(storeFault) bool) {
 		i := 0
 		for _, c := range reps() {
@@ -436,6 +485,10 @@ func TestC03(t *testing.T) {
 				if !yield(storeFault{Cfg: c, Fault: f}) {
 					return
 				}
+			}
+			i++
+			if r.Mine(i) && !yield(storeFault{Cfg: c, Fault: "insert-fails", Phase: "di"}) {
+				return
 			}
 		}
 	}, evalStoreFault)
